@@ -2,6 +2,12 @@
 C01 — property theorems (statements only; helper lemmas live in `Proofs/`).
 -/
 import Mahotas.Proofs.C01
+import Mahotas.Proofs.C01Scatter
+import Mahotas.Proofs.C01Star
+import Mahotas.Proofs.C01Fast
+import Mahotas.Proofs.C01Loops
+import Mahotas.Proofs.C01Tables
+import Mahotas.Generated.Tables
 namespace Mahotas.C01
 open Mahotas
 
@@ -13,6 +19,61 @@ def AdmissibleElem (dt : DT) (sup : List (List Int × Int)) : Prop :=
 
 /-- every pixel value is representable in `dt` (bool: 0/1) -/
 def ImageInRange (dt : DT) (A : Img Int) : Prop := ∀ q, dt.InRange (A.getD q 0)
+
+/-- every offset of the support is an offset `k − c` of the element box `bshape`
+    (true of every `support bshape bc compress`, see `C01_support_offsets_in_box`) -/
+def OffsetsInBox (bshape : List Nat) (sup : List (List Int × Int)) : Prop :=
+  ∀ kh ∈ sup, kh.1 ∈ boxOffsets bshape
+
+/-- the dtypes of the statement: an integer dtype, or bool -/
+def DTypeOK (dt : DT) : Prop := dt.WF ∨ dt = dtBool
+
+/-- `(p, kh)` is a scatter pair for pixel `q`: source pixel `p` of the image, not the dtype minimum,
+    member entry `kh` of the support, and the clamped target `clamp(p + k)` is `q` -/
+def Reaches (dt : DT) (A : Img Int) (sup : List (List Int × Int)) (q p : List Int)
+    (kh : List Int × Int) : Prop :=
+  inside A.shape p = true ∧ kh ∈ sup ∧ A.getD p dt.lo ≠ dt.lo ∧ clampPos A.shape (addPos p kh.1) = q
+
+/-- an image whose stored values are all in range is in range (`0` must be representable) -/
+theorem imageInRange_of_data (dt : DT) (A : Img Int) (h0 : dt.InRange 0)
+    (h : ∀ x ∈ A.data.toList, dt.InRange x) : ImageInRange dt A := by
+  intro q
+  unfold Img.getD
+  split
+  · rw [Array.getD_eq_getD_getElem?]
+    cases hx : A.data[ravelI A.shape q]? with
+    | none => exact h0
+    | some x =>
+      apply h
+      have := Array.mem_of_getElem? hx
+      simpa using this
+  · exact h0
+
+theorem getD_lo_inRange (dt : DT) (A : Img Int) (hlh : dt.lo ≤ dt.hi) (hA : ImageInRange dt A)
+    (p : List Int) : dt.InRange (A.getD p dt.lo) := by
+  have h := hA p
+  unfold Img.getD at h ⊢
+  split
+  · next hin =>
+    simp only [hin, if_true] at h
+    rw [Array.getD_eq_getD_getElem?] at h ⊢
+    cases hx : A.data[ravelI A.shape p]? with
+    | none => simp only [Option.getD_none]; exact ⟨Int.le_refl _, hlh⟩
+    | some x => rw [hx] at h; exact h
+  · exact ⟨Int.le_refl _, hlh⟩
+
+theorem valOK_of (dt : DT) (hdt : DTypeOK dt) (A : Img Int) (sup : List (List Int × Int))
+    (hA : ImageInRange dt A) (hB : AdmissibleElem dt sup) : ValOK dt A sup := by
+  rcases hdt with wf | rfl
+  · apply valOK_wf dt wf A sup
+    · intro p _
+      exact getD_lo_inRange dt A (by have := wf.hi_pos; rcases wf.lo_cases with h | h <;> omega) hA p
+    · intro kh hkh; exact ⟨(hB kh hkh).1, (hB kh hkh).2.1⟩
+  · apply valOK_bool A sup
+    · intro p _
+      have := hA p
+      simp only [DT.InRange, dtBool] at this; omega
+    · intro kh hkh; exact (hB kh hkh).2.2 rfl
 
 end Mahotas.C01
 
@@ -69,6 +130,31 @@ theorem C01_erode_bool_eq_spec (A : Img Int) (sup : List (List Int × Int)) (p :
     1 (by simp [dtBool])
   simpa [dtBool] using key
 
+/-- **C01-T1 (the inner loop as written, whole array).** `erodeAtExit` is the inner loop of `erode<T>` with its
+early exit (`if (value == min) break;`); `erodeModel` — the array the driver prints and the harness
+compares with the real generic kernel — applies it at every pixel in scan order. For every integer dtype
+and bool, every image of every rank and shape with positive axis lengths and every admissible element
+(empty included: the `if (!N2)` branch fills the dtype maximum) the early exit never changes the value,
+and the whole output array is the lattice definition at every pixel. -/
+theorem C01_erode_model_eq_spec (dt : DT) (hdt : dt.WF ∨ dt = dtBool) (A : Img Int)
+    (sup : List (List Int × Int)) (hs : ∀ d ∈ A.shape, 0 < d) (hA : ImageInRange dt A)
+    (hB : AdmissibleElem dt sup) :
+    (∀ p, erodeAtExit dt A sup p = erodeAt dt A sup p) ∧
+    erodeModel dt A sup = ((allPos A.shape).map (erodeSpecAt dt A sup)).toArray := by
+  have hexit : ∀ p, erodeAtExit dt A sup p = erodeAt dt A sup p := fun p =>
+    erodeAtExit_eq dt hdt A sup p hs hA (fun kh hkh => ⟨(hB kh hkh).1, (hB kh hkh).2.1⟩)
+  refine ⟨hexit, ?_⟩
+  unfold erodeModel
+  congr 1
+  apply List.map_congr_left
+  intro p _
+  rw [hexit p]
+  rcases hdt with wf | rfl
+  · exact C01_erode_eq_spec dt wf A sup p hs hA hB
+  · apply C01_erode_bool_eq_spec A sup p hs
+    · intro q; have := hA q; simp only [DT.InRange, dtBool] at this; omega
+    · intro kh hkh; exact (hB kh hkh).2.2 rfl
+
 /-- **F10 restated as part of C01**: the kernel's saturating subtraction is `max lo (a − h)`,
     its saturating addition `min hi (a + h)`, for every dtype and all in-range operands. -/
 theorem C01_saturating_arith (dt : DT) (wf : dt.WF) (a b : Int) (ha : dt.InRange a)
@@ -84,11 +170,477 @@ theorem C01_border_is_edge_replication (cc len : Int) (h : 0 < len) :
     ∀ m r, fixOffset m cc len = some r → 0 ≤ r ∧ r < len :=
   ⟨fixOffset_nearest cc len h, fun m r => fixOffset_range m cc len h r⟩
 
+/-- every offset produced by `support` (the list the driver feeds to the kernels) lies in the element box
+    and has the rank of the element. -/
+theorem C01_support_offsets_in_box (bshape : List Nat) (bc : Array Int) (compress : Bool) :
+    OffsetsInBox bshape (support bshape bc compress) ∧
+    ∀ kh ∈ support bshape bc compress, kh.1.length = bshape.length :=
+  ⟨fun kh h => support_mem_boxOffsets bshape bc compress kh h,
+   fun kh h => boxOffsets_length bshape kh.1 (support_mem_boxOffsets bshape bc compress kh h)⟩
+
+/-- **C01-T3 (the scatter kernel is a pointwise maximum).** The model of the generic `dilate` kernel
+walks over the pixels in scan order and, for every pixel `p` that is not the dtype minimum and every
+entry `(k, h)` of the element, raises the output cell `clamp(p + k)` to `dilate_add(A p, h)` if that is
+larger (a fold over an array). For every image of every rank and shape with positive axis lengths, every
+support whose offsets have the rank of the image, and every flat index `i` of the output, the value `v`
+left in cell `i` is the maximum of the dtype minimum and of `dilate_add(A p, h)` over all scatter
+pairs `(p, (k, h))` for the pixel with index `i` — stated without reference to any order: `v` is an upper bound of `lo`
+and of all those values, and it is `lo` or one of them. The output has as many cells as the image. -/
+theorem C01_dilate_scatter_characterisation (dt : DT) (A : Img Int) (sup : List (List Int × Int))
+    (hs : ∀ d ∈ A.shape, 0 < d) (hlen : ∀ kh ∈ sup, kh.1.length = A.shape.length)
+    (i : Nat) (hi : i < A.size) :
+    let v := (dilateModel dt A sup).getD i dt.lo
+    let q := unravelI A.shape i
+    (dilateModel dt A sup).size = A.size ∧ dt.lo ≤ v ∧
+    (∀ p kh, Reaches dt A sup q p kh → dilateAdd dt (A.getD p dt.lo) kh.2 ≤ v) ∧
+    (v = dt.lo ∨ ∃ p kh, Reaches dt A sup q p kh ∧ v = dilateAdd dt (A.getD p dt.lo) kh.2) := by
+  intro v q
+  have hq : inside A.shape q = true := inside_unravelI A.shape i hi
+  have hiq : ravelI A.shape q = i := ravelI_unravelI A.shape i hi
+  obtain ⟨hsz, hv⟩ := dilateModel_getD dt A hs sup i hi
+  have hv' : v = listMax dt.lo (scatCands dt A sup i) := hv
+  refine ⟨hsz, ?_, ?_, ?_⟩
+  · rw [hv']; exact le_listMax_init _ _
+  · rintro p kh ⟨hp, hkh, hne, ht⟩
+    rw [hv']
+    apply le_listMax_of_mem
+    rw [mem_scatCands]
+    refine ⟨p, hp, hne, kh, hkh, ?_, rfl⟩
+    rw [← hiq, target_eq_iff A.shape hs p kh.1 q hp (hlen kh hkh) hq]; exact ht
+  · rcases listMax_mem dt.lo (scatCands dt A sup i) with h | h
+    · left; rw [hv']; exact h
+    · right
+      rw [mem_scatCands] at h
+      obtain ⟨p, hp, hne, kh, hkh, ht, hx⟩ := h
+      refine ⟨p, kh, ⟨hp, hkh, hne, ?_⟩, by rw [hv']; exact hx⟩
+      rw [← hiq, target_eq_iff A.shape hs p kh.1 q hp (hlen kh hkh) hq] at ht; exact ht
+
+/-- **C01-T3b (dilation at pixels whose neighbourhood lies inside the image).** For every integer dtype
+and bool, every image of every rank and shape with positive axis lengths, every admissible structuring
+element of the rank of the image (flat or not, regular or not, odd or even sized) and every pixel `q`
+for which the element box placed at `q` and its reflection both lie inside the image, the cell of `q`
+in the model of the generic `dilate` kernel (scatter with clamp) equals the lattice definition
+(gather): the maximum over the members of the element of `saturate(A[q − k] + h)`, the dtype minimum being absorbing. -/
+theorem C01_dilate_eq_spec_boxInterior (dt : DT) (hdt : DTypeOK dt) (A : Img Int) (bshape : List Nat)
+    (sup : List (List Int × Int)) (q : List Int)
+    (hs : ∀ d ∈ A.shape, 0 < d) (hl : bshape.length = A.shape.length) (hbox : OffsetsInBox bshape sup)
+    (hA : ImageInRange dt A) (hB : AdmissibleElem dt sup)
+    (hq : inside A.shape q = true) (hb : boxInterior A.shape bshape q = true) :
+    (dilateModel dt A sup).getD (ravelI A.shape q) dt.lo = dilateSpecAt dt A sup q := by
+  apply scatter_eq_gather_at dt A sup q hs hq
+  · intro kh hkh; rw [boxOffsets_length bshape kh.1 (hbox kh hkh), hl]
+  · exact valOK_of dt hdt A sup hA hB
+  · intro p kh hp hkh hm ht
+    obtain ⟨i, hi, hk⟩ := (mem_boxOffsets bshape kh.1).mp (hbox kh hkh)
+    refine ⟨kh, hkh, hm, rfl, ?_⟩
+    rw [hk] at ht ⊢
+    exact boxInterior_scatter A.shape bshape q p i hl hb hp hq hi ht
+  · intro kh hkh hm
+    obtain ⟨i, hi, hk⟩ := (mem_boxOffsets bshape kh.1).mp (hbox kh hkh)
+    refine ⟨kh, hkh, hm, rfl, ?_⟩
+    rw [hk]
+    exact boxInterior_gather A.shape bshape q i hl hb hq hi
+
+/-- **C01-T4 (regular elements: dilation at every pixel).** If the members of the element form a
+coordinate-wise star-shaped set (with `k` every offset between `0` and `k` is a member — the executable
+test `starShaped` of the driver; centred crosses, boxes and disks pass it, see `C01_se_tables`) and
+all members have the same height (`flatHeights`), then for every integer dtype and bool, every image of
+every rank and shape with positive axis lengths and **every** pixel `q` of the image — border pixels
+included, where the kernel's scatter is clamped — the model of the generic `dilate` kernel equals the
+lattice definition (gather with clamp). -/
+theorem C01_dilate_regular_everywhere (dt : DT) (hdt : DTypeOK dt) (A : Img Int) (bshape : List Nat)
+    (sup : List (List Int × Int)) (q : List Int)
+    (hs : ∀ d ∈ A.shape, 0 < d) (hl : bshape.length = A.shape.length) (hbox : OffsetsInBox bshape sup)
+    (hA : ImageInRange dt A) (hB : AdmissibleElem dt sup)
+    (hstar : starShaped bshape ((sup.filter (isMember dt)).map (·.1)) = true)
+    (hflat : flatHeights ((sup.filter (isMember dt)).map (·.2)) = true)
+    (hq : inside A.shape q = true) :
+    (dilateModel dt A sup).getD (ravelI A.shape q) dt.lo = dilateSpecAt dt A sup q := by
+  have hlen : ∀ kh ∈ sup, kh.1.length = A.shape.length := by
+    intro kh hkh; rw [boxOffsets_length bshape kh.1 (hbox kh hkh), hl]
+  apply scatter_eq_gather_at dt A sup q hs hq hlen (valOK_of dt hdt A sup hA hB)
+  · intro p kh hp hkh hm ht
+    obtain ⟨hbt, hg⟩ := star_scatter A.shape p q kh.1 hp hq (hlen kh hkh) ht
+    obtain ⟨kh', hkh', hm', hh, hk'⟩ := star_exchange dt bshape sup hbox hstar hflat kh hkh hm _ hbt
+    exact ⟨kh', hkh', hm', hh, by rw [hk']; exact hg⟩
+  · intro kh hkh hm
+    obtain ⟨hbt, hg⟩ := star_gather A.shape q kh.1 hq (hlen kh hkh)
+    obtain ⟨kh', hkh', hm', hh, hk'⟩ := star_exchange dt bshape sup hbox hstar hflat kh hkh hm _ hbt
+    exact ⟨kh', hkh', hm', hh, by rw [hk']; exact hg⟩
+
+/-- **C01-T3b/T4 in the form the check uses.** The driver marks pixel `q` as *observed* when
+`starShaped … && flatHeights … || boxInterior …` evaluates to true on the members of the support it built;
+at every observed pixel the model of the generic `dilate` kernel equals the lattice definition. (The
+harness compares the real output with `dilateSpecAt` exactly at these pixels, with the scatter model
+everywhere.) -/
+theorem C01_dilate_eq_spec_where_observed (dt : DT) (hdt : DTypeOK dt) (A : Img Int) (bshape : List Nat)
+    (sup : List (List Int × Int)) (q : List Int)
+    (hs : ∀ d ∈ A.shape, 0 < d) (hl : bshape.length = A.shape.length) (hbox : OffsetsInBox bshape sup)
+    (hA : ImageInRange dt A) (hB : AdmissibleElem dt sup) (hq : inside A.shape q = true)
+    (hobs : (starShaped bshape ((sup.filter (isMember dt)).map (·.1)) &&
+             flatHeights ((sup.filter (isMember dt)).map (·.2)) ||
+             boxInterior A.shape bshape q) = true) :
+    (dilateModel dt A sup).getD (ravelI A.shape q) dt.lo = dilateSpecAt dt A sup q := by
+  rw [Bool.or_eq_true, Bool.and_eq_true] at hobs
+  rcases hobs with ⟨hstar, hflat⟩ | hb
+  · exact C01_dilate_regular_everywhere dt hdt A bshape sup q hs hl hbox hA hB hstar hflat hq
+  · exact C01_dilate_eq_spec_boxInterior dt hdt A bshape sup q hs hl hbox hA hB hq hb
+
+/-- **C01-T2 (2-D boolean fast path, erosion).** For every 2-D boolean image (any shape `Ny × Nx`),
+every 2-D structuring element given as an array of `By·Bx` entries (odd or even sized, empty, larger
+than the image, with or without its centre) and every pixel `(y, x)` of the image, the pointwise model
+of the erosion branch of `fast_binary_dilate_erode_2d` — centre handled separately (copy of the input or
+all-true), offset list with `dx` clamped to `±Nx`, AND of the reads clamped to the image — equals the lattice
+definition `erodeSpecAt` over the compressed support the generic kernel uses; hence (second part) it
+equals the model of the generic `erode` kernel: which code path serves the call does not change the
+answer. -/
+theorem C01_fast_erode_eq_spec (A : Img Int) (Ny Nx By Bx : Nat) (bc : Array Int) (y x : Int)
+    (hshape : A.shape = [Ny, Nx]) (hA : ∀ q, A.getD q 0 = 0 ∨ A.getD q 0 = 1)
+    (hbc : bc.size = By * Bx) (hp : inside A.shape [y, x] = true) :
+    fastErodeAt A [By, Bx] bc [y, x] = erodeSpecAt dtBool A (support [By, Bx] bc true) [y, x] ∧
+    ((∀ i, bc.getD i 0 = 0 ∨ bc.getD i 0 = 1) →
+      fastErodeAt A [By, Bx] bc [y, x] = erodeAt dtBool A (support [By, Bx] bc true) [y, x]) := by
+  obtain ⟨shape, data⟩ := A
+  simp only at hshape
+  subst hshape
+  obtain ⟨_, _, e, hy, hx⟩ := inside2 Ny Nx _ hp
+  simp only [List.cons.injEq, and_true] at e
+  obtain ⟨rfl, rfl⟩ := e
+  have h1 := fastErodeAt_eq_spec Ny Nx data By Bx bc y x hA hbc hy hx
+  refine ⟨h1, fun hbc01 => ?_⟩
+  rw [h1]
+  symm
+  apply C01_erode_bool_eq_spec _ _ _ ?_ hA ?_
+  · intro d hd
+    have : d = Ny ∨ d = Nx := by simpa using hd
+    rcases this with rfl | rfl <;> omega
+  · intro kh hkh
+    obtain ⟨i, _, hne, rfl⟩ := (mem_support2 By Bx bc kh).mp hkh
+    rcases hbc01 i with h | h
+    · exact absurd h hne
+    · exact h
+
+/-- **C01-T2, row loops (the erosion branch as written).** `fastErodeLoops` transliterates the erosion branch
+of `fast_binary_dilate_erode_2d` loop by loop: the output is initialised with a copy of the input (centre
+set) or all-true; for every row `y` and every offset `(dy, dx)` of the list, `dy` is adjusted so that
+`y + dy` stays inside, a border loop of `|dx|` iterations ANDs the replicated edge pixel of the input row
+into the far columns and the main loop of `Nx − |dx|` iterations ANDs the shifted input row into the
+output row (flat 0/1 array, pointer arithmetic as index arithmetic). For every 2-D 0/1 image, every
+element (any shape, including non-2-D shapes for which the offset list is empty) and every pixel, the cell
+the loops leave is the pointwise form `fastErodeAt` — so by `C01_fast_erode_eq_spec` the loops compute the
+lattice definition. The loop bounds `dx` (not `dx − 1`) and the clamping of `dx` to `±Nx` are what make
+this true; the driver prints `fastErodeLoops` and the harness compares it with the real fast path. -/
+theorem C01_fast_erode_loops_eq_pointwise (A : Img Int) (Ny Nx : Nat) (bshape : List Nat) (bc : Array Int)
+    (y x : Int) (hshape : A.shape = [Ny, Nx]) (hdata : A.data.size = A.size)
+    (hA : ∀ q, A.getD q 0 = 0 ∨ A.getD q 0 = 1) (hp : inside A.shape [y, x] = true) :
+    (fastErodeLoops A bshape bc).size = A.size ∧
+    (fastErodeLoops A bshape bc).getD (ravelI A.shape [y, x]) 0 = fastErodeAt A bshape bc [y, x] ∧
+    (∀ By Bx, bshape = [By, Bx] → bc.size = By * Bx →
+      (fastErodeLoops A bshape bc).getD (ravelI A.shape [y, x]) 0 =
+        erodeSpecAt dtBool A (support bshape bc true) [y, x]) := by
+  obtain ⟨shape, data⟩ := A
+  simp only at hshape
+  subst hshape
+  obtain ⟨_, _, e, hy, hx⟩ := inside2 Ny Nx _ hp
+  simp only [List.cons.injEq, and_true] at e
+  obtain ⟨rfl, rfl⟩ := e
+  have h01 := data01_of_img [Ny, Nx] data hdata hA
+  obtain ⟨h1, h2⟩ := fastErodeLoops_cell Ny Nx data bshape bc hdata h01 y.toNat x.toNat (by omega) (by omega)
+  have ey : ((y.toNat : Nat) : Int) = y := by omega
+  have ex : ((x.toNat : Nat) : Int) = x := by omega
+  rw [ey, ex] at h2
+  have hr : ravelI [Ny, Nx] [y, x] = y.toNat * Nx + x.toNat := by simp [ravelI, shapeSize]
+  rw [hr]
+  refine ⟨h1, h2, ?_⟩
+  rintro By Bx rfl hbc
+  rw [h2]
+  exact (C01_fast_erode_eq_spec ⟨[Ny, Nx], data⟩ Ny Nx By Bx bc y x rfl hA hbc hp).1
+
+/-- **C01-T5 (2-D boolean fast path, dilation = generic kernel).** For every 2-D boolean
+image (empty ones included) and every 2-D structuring element (odd or even sized, empty, larger than the image, regular or not)
+the model of the dilation branch of `fast_binary_dilate_erode_2d` (as repaired: scatter with clamp, the
+centre handled by the initial copy) produces the same array as the model of the generic `dilate` kernel
+with the compressed support — at every pixel, border included. Together with T3b/T4 the fast path
+therefore equals the lattice definition wherever the generic kernel does. -/
+theorem C01_fast_dilate_eq_generic (A : Img Int) (Ny Nx By Bx : Nat) (bc : Array Int)
+    (hshape : A.shape = [Ny, Nx]) (hdata : A.data.size = A.size)
+    (hA : ∀ q, A.getD q 0 = 0 ∨ A.getD q 0 = 1) (hbc : bc.size = By * Bx) :
+    fastDilate A [By, Bx] bc = dilateModel dtBool A (support [By, Bx] bc true) := by
+  obtain ⟨shape, data⟩ := A
+  simp only at hshape
+  subst hshape
+  by_cases h : 0 < Ny ∧ 0 < Nx
+  · exact fastDilate_eq Ny Nx data By Bx bc h.1 h.2 hdata hA hbc
+  · apply fastDilate_eq_empty Ny Nx data [By, Bx] bc _ hdata
+    simp only [shapeSize, Nat.mul_one]
+    rcases Nat.eq_zero_or_pos Ny with h1 | h1
+    · simp [h1]
+    · rcases Nat.eq_zero_or_pos Nx with h2 | h2
+      · simp [h2]
+      · exact absurd ⟨h1, h2⟩ h
+
+/-- **C01-T4/T5 (both code paths equal the lattice definition).** For every 2-D boolean image and 0/1
+element, the fast dilation branch equals the gather definition at every box-interior pixel, and at every
+pixel when the element is star-shaped (cross, box, disk) — the same observables, with the same answer, as
+the generic kernel. -/
+theorem C01_fast_dilate_eq_spec (A : Img Int) (Ny Nx By Bx : Nat) (bc : Array Int) (q : List Int)
+    (hshape : A.shape = [Ny, Nx]) (hdata : A.data.size = A.size)
+    (hA : ∀ q, A.getD q 0 = 0 ∨ A.getD q 0 = 1) (hbc : bc.size = By * Bx)
+    (hbc01 : ∀ i, bc.getD i 0 = 0 ∨ bc.getD i 0 = 1)
+    (hq : inside A.shape q = true)
+    (hobs : boxInterior A.shape [By, Bx] q = true ∨
+      starShaped [By, Bx] ((support [By, Bx] bc true).map (·.1)) = true) :
+    (fastDilate A [By, Bx] bc).getD (ravelI A.shape q) 0 =
+      dilateSpecAt dtBool A (support [By, Bx] bc true) q := by
+  rw [C01_fast_dilate_eq_generic A Ny Nx By Bx bc hshape hdata hA hbc]
+  have hs : ∀ d ∈ A.shape, 0 < d := by
+    rw [hshape] at hq ⊢
+    obtain ⟨y, x, _, hy, hx⟩ := inside2 Ny Nx q hq
+    intro d hd
+    have : d = Ny ∨ d = Nx := by simpa using hd
+    rcases this with rfl | rfl <;> omega
+  have hl : [By, Bx].length = A.shape.length := by rw [hshape]; rfl
+  have hIR : ImageInRange dtBool A := by
+    intro p; rcases hA p with h | h <;> simp [DT.InRange, dtBool, h]
+  have hones : ∀ kh ∈ support [By, Bx] bc true, kh.2 = 1 := by
+    intro kh hkh
+    obtain ⟨i, _, hne, rfl⟩ := (mem_support2 By Bx bc kh).mp hkh
+    rcases hbc01 i with h | h
+    · exact absurd h hne
+    · exact h
+  have hB : AdmissibleElem dtBool (support [By, Bx] bc true) := by
+    intro kh hkh
+    rw [hones kh hkh]
+    exact ⟨⟨by decide, by decide⟩, Or.inl (by decide), fun _ => rfl⟩
+  have hbox := (C01_support_offsets_in_box [By, Bx] bc true).1
+  rcases hobs with hb | hstar
+  · exact C01_dilate_eq_spec_boxInterior dtBool (Or.inr rfl) A [By, Bx] _ q hs hl hbox hIR hB hq hb
+  · apply C01_dilate_regular_everywhere dtBool (Or.inr rfl) A [By, Bx] _ q hs hl hbox hIR hB _ _ hq
+    · rw [support_filter_bool]; exact hstar
+    · rw [support_filter_bool]
+      apply flatHeights_of_const _ 1
+      intro x hx
+      obtain ⟨kh, hkh, rfl⟩ := List.mem_map.mp hx
+      exact hones kh hkh
+
+/-- **C01-T6 (structuring-element tables).** In every dimension `d`:
+`crossElem d r` (what `get_structuring_elem` builds for `None`/an integer, `r` the translated radius) has
+as members exactly the offsets `k ∈ {−1,0,1}^d` with `‖k‖₁ ≤ r` (`l1N` = sum of absolute values), and
+`diskElem d r` (`disk(r, d)`) exactly the offsets `k ∈ {−r..r}^d` with `|k|² < r²` (`sqN` = sum of squares).
+All member entries are 1 (flat); both pass the driver's executable regularity test (`starShaped`,
+`flatHeights`) that `C01_dilate_regular_everywhere` assumes; both are symmetric (`k` member ⇒ `−k` member);
+the cross contains the centre for `r ≥ 0`, the disk for `r ≥ 1`; `disk(0)` is the empty element. -/
+theorem C01_se_tables (d : Nat) :
+    (∀ r : Int,
+      let M := support (List.replicate d 3) (crossElem d r) true
+      (∀ k, k ∈ M.map (·.1) ↔ (k.length = d ∧ ∀ x ∈ k, -1 ≤ x ∧ x ≤ 1) ∧ l1N k ≤ r) ∧
+      (∀ kh ∈ M, kh.2 = 1) ∧
+      starShaped (List.replicate d 3) (M.map (·.1)) = true ∧ flatHeights (M.map (·.2)) = true ∧
+      (∀ k ∈ M.map (·.1), negPos k ∈ M.map (·.1)) ∧
+      (0 ≤ r → List.replicate d 0 ∈ M.map (·.1))) ∧
+    (∀ r : Nat,
+      let M := support (List.replicate d (2 * r + 1)) (diskElem d r) true
+      (∀ k, k ∈ M.map (·.1) ↔ (k.length = d ∧ ∀ x ∈ k, -(r : Int) ≤ x ∧ x ≤ r) ∧ sqN k < (r : Int) * r) ∧
+      (∀ kh ∈ M, kh.2 = 1) ∧
+      starShaped (List.replicate d (2 * r + 1)) (M.map (·.1)) = true ∧ flatHeights (M.map (·.2)) = true ∧
+      (∀ k ∈ M.map (·.1), negPos k ∈ M.map (·.1)) ∧
+      (1 ≤ r → List.replicate d 0 ∈ M.map (·.1)) ∧
+      (r = 0 → M = [])) := by
+  constructor
+  · intro r
+    have h := ball_props d 1 (fun k => decide (l1N k ≤ r))
+      (fun k' k hb hk => by
+        have := (norms_between k' k hb).1
+        simp only [decide_eq_true_eq] at hk ⊢; omega)
+      (fun k hk => by
+        have := (norms_neg k).1
+        simp only [decide_eq_true_eq] at hk ⊢; omega)
+    rw [← crossElem_eq] at h
+    obtain ⟨h1, h2, h3, h4, h5, h6, _⟩ := h
+    refine ⟨?_, h2, h3, h4, h5, ?_⟩
+    · intro k; rw [h1 k]; simp
+    · intro hr; apply h6
+      have := (norms_zero d).1
+      simp only [decide_eq_true_eq]; omega
+  · intro r
+    have h := ball_props d r (fun k => decide (sqN k < ((r * r : Nat) : Int)))
+      (fun k' k hb hk => by
+        have := (norms_between k' k hb).2
+        simp only [decide_eq_true_eq] at hk ⊢; omega)
+      (fun k hk => by
+        have := (norms_neg k).2
+        simp only [decide_eq_true_eq] at hk ⊢; omega)
+    rw [← diskElem_eq] at h
+    obtain ⟨h1, h2, h3, h4, h5, h6, h7⟩ := h
+    refine ⟨?_, h2, h3, h4, h5, ?_, ?_⟩
+    · intro k; rw [h1 k]; simp
+    · intro hr; apply h6
+      have := (norms_zero d).2
+      have hpos : 0 < r * r := Nat.mul_pos hr hr
+      simp only [decide_eq_true_eq]; omega
+    · intro hr; apply h7
+      intro k
+      subst hr
+      have := sqN_nonneg k
+      simp only [decide_eq_false_iff_not]; omega
+
+/-- **C01-T4 + T6 (dilation at every pixel for a centred cross, box or disk).** For bool and every unsigned
+integer dtype, every image of every rank `d` and shape with positive axis lengths, and for the structuring
+element being `crossElem d r` (any radius), `diskElem d r` (any radius) or an all-ones box of any shape
+(odd or even sized), the model of the generic `dilate` kernel, run on the support exactly as the driver
+builds it (`support bshape bc dt.isBool`), equals the lattice definition at **every** pixel. (For signed
+dtypes a 0 entry is a member of height 0 — the element is then not flat and only
+`C01_dilate_eq_spec_boxInterior` applies.) -/
+theorem C01_dilate_cross_box_disk_everywhere (dt : DT) (hdt : DTypeOK dt) (hlo : dt.lo = 0) (A : Img Int)
+    (bshape : List Nat) (bc : Array Int) (q : List Int)
+    (hs : ∀ d ∈ A.shape, 0 < d) (hA : ImageInRange dt A) (hq : inside A.shape q = true)
+    (hreg : (∃ r : Int, bshape = List.replicate A.shape.length 3 ∧ bc = crossElem A.shape.length r) ∨
+            (∃ r : Nat, bshape = List.replicate A.shape.length (2 * r + 1) ∧ bc = diskElem A.shape.length r) ∨
+            (bshape.length = A.shape.length ∧ ∀ i, i < shapeSize bshape → bc.getD i 0 = 1)) :
+    (dilateModel dt A (support bshape bc dt.isBool)).getD (ravelI A.shape q) dt.lo =
+      dilateSpecAt dt A (support bshape bc dt.isBool) q := by
+  -- regularity of the compressed support, entries 0/1, rank
+  have key : bshape.length = A.shape.length ∧
+      (starShaped bshape ((support bshape bc true).map (·.1)) = true ∧
+       flatHeights ((support bshape bc true).map (·.2)) = true ∧ ∀ kh ∈ support bshape bc true, kh.2 = 1) ∧
+      (∀ i, i < shapeSize bshape → bc.getD i 0 = 0 ∨ bc.getD i 0 = 1) := by
+    rcases hreg with ⟨r, rfl, rfl⟩ | ⟨r, rfl, rfl⟩ | ⟨hl, h1⟩
+    · refine ⟨by simp, ?_, ?_⟩
+      · have := C01_se_tables A.shape.length
+        obtain ⟨_, h2, h3, h4, _⟩ := this.1 r
+        exact ⟨h3, h4, h2⟩
+      · intro i hi; rw [crossElem_eq]; exact ballElem_entries _ 1 _ i hi
+    · refine ⟨by simp, ?_, ?_⟩
+      · have := C01_se_tables A.shape.length
+        obtain ⟨_, h2, h3, h4, _⟩ := this.2 r
+        exact ⟨h3, h4, h2⟩
+      · intro i hi; rw [diskElem_eq]; exact ballElem_entries _ r _ i hi
+    · exact ⟨hl, box_regular bshape bc h1, fun i hi => Or.inr (h1 i hi)⟩
+  obtain ⟨hl, ⟨hstar, hflat, hones⟩, h01⟩ := key
+  have hfilter : (support bshape bc dt.isBool).filter (isMember dt) = support bshape bc true := by
+    rcases hdt with wf | rfl
+    · rw [wf.notBool]; exact support_filter_unsigned dt hlo wf.notBool bshape bc
+    · exact support_filter_bool bshape bc
+  have hB : AdmissibleElem dt (support bshape bc dt.isBool) := by
+    intro kh hkh
+    obtain ⟨i, hi, he⟩ := support_heights bshape bc _ kh hkh
+    rcases hdt with wf | rfl
+    · have := wf.hi_pos
+      rcases h01 i hi with h | h
+      · rw [he, h]; exact ⟨⟨by omega, by omega⟩, Or.inl (Int.le_refl _), by simp [wf.notBool]⟩
+      · rw [he, h]; exact ⟨⟨by omega, by omega⟩, Or.inl (by decide), by simp [wf.notBool]⟩
+    · have h1 := hones kh hkh
+      rw [h1]; exact ⟨⟨by decide, by decide⟩, Or.inl (by decide), fun _ => rfl⟩
+  exact C01_dilate_regular_everywhere dt hdt A bshape _ q hs hl
+    (C01_support_offsets_in_box bshape bc _).1 hA hB (by rw [hfilter]; exact hstar)
+    (by rw [hfilter]; exact hflat) hq
+
+/-- **C01-T6 (tables extracted from the sources).** `Generated.defaultCross` (the literal 2-D default of
+`get_structuring_elem`) and `Generated.translateSizes` (its `translate_sizes` table) are regenerated from
+`morph.py` on every run; the literal cross is `crossElem 2 1`, and the table sends the connectivity
+counts (2-D, 4) ↦ radius 1, (2-D, 8) ↦ 2, (3-D, 6) ↦ 1, whose ℓ1 balls have 5, 9 and 7 members — one more
+(the centre) than the number of neighbours asked for. -/
+theorem C01_se_tables_generated :
+    Generated.defaultCross = (crossElem 2 1).toList ∧
+    Generated.translateSizes = [(2, 4, 1), (2, 8, 2), (3, 6, 1)] ∧
+    (Generated.translateSizes.map fun t =>
+      ((crossElem t.1 (t.2.2 : Int)).toList.filter (· ≠ 0)).length) = [5, 9, 7] ∧
+    (Generated.translateSizes.all fun t =>
+      ((crossElem t.1 (t.2.2 : Int)).toList.filter (· ≠ 0)).length == t.2.1 + 1) = true := by
+  decide +kernel
+
+/-- **C01-T5, row loops (the dilation branch as written).** `fastDilateLoops` transliterates the dilation
+branch of `fast_binary_dilate_erode_2d` (as repaired) loop by loop: output initialised with a copy of the
+input (centre set) or all-false; for every row `y` and offset `(dy, dx)`, `dy` adjusted so that `y + dy`
+stays inside, a border loop of `|dx|` iterations ORs the pixels that would leave the image into the edge
+cell of the output row and the main loop of `Nx − |dx|` iterations ORs the input row into the shifted
+output row. For every 2-D 0/1 image (empty ones included) and every element the loops produce the same
+array as the pointwise scatter `fastDilate`, hence (by `C01_fast_dilate_eq_generic`) the same array as the
+generic kernel. The driver prints `fastDilateLoops`; the harness compares it with the real fast path. -/
+theorem C01_fast_dilate_loops_eq_pointwise (A : Img Int) (Ny Nx : Nat) (bshape : List Nat) (bc : Array Int)
+    (hshape : A.shape = [Ny, Nx]) (hdata : A.data.size = A.size)
+    (hA : ∀ q, A.getD q 0 = 0 ∨ A.getD q 0 = 1) :
+    fastDilateLoops A bshape bc = fastDilate A bshape bc := by
+  obtain ⟨shape, data⟩ := A
+  simp only at hshape
+  subst hshape
+  exact fastDilateLoops_eq Ny Nx data bshape bc hdata (data01_of_img [Ny, Nx] data hdata hA)
+
 /-! non-vacuity: a 2×3 int8 image with negative values and a non-flat, even-sized element
-    meets every hypothesis of `C01_erode_eq_spec`. -/
+    meets every hypothesis of `C01_erode_eq_spec`; the early exit of `erodeModel` fires (values −128). -/
 example :
     let A : Img Int := { shape := [2, 3], data := #[-128, 5, 127, -3, 0, 7] }
     let sup := support [2, 2] #[0, 3, -128, 1] false
     (∀ d ∈ A.shape, 0 < d) ∧ (sup.length = 4) ∧
-      (allPos A.shape).map (erodeAt (dtI 8) A sup) = [-128, -128, 5, -128, -128, 5] := by
-  decide
+      (allPos A.shape).map (erodeAt (dtI 8) A sup) = [-128, -128, 5, -128, -128, 5] ∧
+      (erodeModel (dtI 8) A sup).toList = [-128, -128, 5, -128, -128, 5] := by
+  decide +kernel
+
+/-! non-vacuity of T3/T3b: a 3×4 int8 image, an even-sized non-flat irregular element with an absent entry.
+    The two box-interior pixels agree with the gather definition; border pixels (where the statement
+    is silent) differ — the box-interior hypothesis is not idle. -/
+example :
+    let A : Img Int := { shape := [3, 4], data := #[-128, 5, 127, -3, 0, 7, -128, 100, 1, 2, 3, 4] }
+    let sup := support [2, 2] #[0, 3, -128, 1] false
+    (allPos A.shape).map (boxInterior A.shape [2, 2]) =
+      [false, false, false, false, false, true, true, false, false, false, false, false] ∧
+    (dilateModel (dtI 8) A sup).toList = [7, 127, 127, 103, 4, 8, 6, 101, 2, 3, 4, 5] ∧
+    (allPos A.shape).map (dilateSpecAt (dtI 8) A sup) = [7, 10, 127, 103, 4, 8, 6, 101, 4, 5, 6, 7] := by
+  decide +kernel
+
+/-! non-vacuity of T4: the 1×3 box passes the executable regularity test and scatter = gather at
+    every pixel; the one-sided element `{+1}` fails the test and scatter ≠ gather at the border. -/
+example :
+    let A : Img Int := { shape := [1, 3], data := #[5, 0, 0] }
+    let box := support [1, 3] #[1, 1, 1] false
+    let shift := support [1, 3] #[0, 0, 1] false
+    let mem := fun (s : List (List Int × Int)) => s.filter (isMember (dtU 8))
+    starShaped [1, 3] ((mem box).map (·.1)) = true ∧ flatHeights ((mem box).map (·.2)) = true ∧
+    (dilateModel (dtU 8) A box).toList = (allPos A.shape).map (dilateSpecAt (dtU 8) A box) ∧
+    starShaped [1, 3] ((mem shift).map (·.1)) = false ∧
+    (dilateModel (dtU 8) A shift).toList = [0, 6, 0] ∧
+    (allPos A.shape).map (dilateSpecAt (dtU 8) A shift) = [6, 6, 0] := by
+  decide +kernel
+
+/-! non-vacuity of T2/T5: the 3×4 image and the asymmetric 3×3 element (centre absent) on which the pinned
+    fast path was wrong, and a 2×2 image under a 5×5 element whose offsets are clamped to `±Nx`:
+    the fast model equals the specification / the generic model; for the irregular element the scatter
+    result differs from the gather definition at a border pixel (index 7), where the statement is silent. -/
+example :
+    let A : Img Int := { shape := [3, 4], data := #[1,1,0,1, 1,1,1,1, 0,1,1,1] }
+    let D : Img Int := { shape := [3, 4], data := #[0,0,0,1, 0,0,0,0, 1,0,0,0] }
+    let bc : Array Int := #[1,0,1, 1,0,1, 0,0,1]
+    let sup := support [3, 3] bc true
+    (allPos A.shape).map (fastErodeAt A [3, 3] bc) = [1, 0, 1, 0, 1, 0, 1, 0, 0, 0, 1, 1] ∧
+    (allPos A.shape).map (erodeSpecAt dtBool A sup) = [1, 0, 1, 0, 1, 0, 1, 0, 0, 0, 1, 1] ∧
+    (fastErodeLoops A [3, 3] bc).toList = [1, 0, 1, 0, 1, 0, 1, 0, 0, 0, 1, 1] ∧
+    (fastDilate D [3, 3] bc).toList = [0, 0, 1, 1, 1, 1, 0, 1, 1, 1, 0, 0] ∧
+    (fastDilateLoops D [3, 3] bc).toList = [0, 0, 1, 1, 1, 1, 0, 1, 1, 1, 0, 0] ∧
+    (dilateModel dtBool D sup).toList = [0, 0, 1, 1, 1, 1, 0, 1, 1, 1, 0, 0] ∧
+    (allPos D.shape).map (dilateSpecAt dtBool D sup) = [0, 0, 1, 1, 1, 1, 0, 0, 1, 1, 0, 0] := by
+  decide +kernel
+
+example :
+    let A : Img Int := { shape := [2, 2], data := #[1, 0, 0, 0] }
+    let bc : Array Int := #[0,0,0,0,1, 0,0,0,0,0, 0,0,0,0,0, 0,0,0,0,0, 1,0,0,0,0]
+    fastPositions 2 [5, 5] bc true = [(-2, 2), (2, -2)] ∧
+    (allPos A.shape).map (fastErodeAt A [5, 5] bc) = [0, 0, 0, 0] ∧
+    (fastDilate A [5, 5] bc).toList = [0, 1, 1, 0] ∧
+    (dilateModel dtBool A (support [5, 5] bc true)).toList = [0, 1, 1, 0] := by
+  decide +kernel
+
+/-! non-vacuity of T4 + T6: a 2×3 uint8 image under the default cross meets every hypothesis of
+    `C01_dilate_cross_box_disk_everywhere` (here at the corner pixel, where the scatter is clamped),
+    and the cross is what the tables say. -/
+example :
+    let A : Img Int := { shape := [2, 3], data := #[0, 200, 255, 7, 0, 31] }
+    let sup := support [3, 3] (crossElem 2 1) false
+    (dilateModel (dtU 8) A sup).getD (ravelI A.shape [0, 0]) 0 = dilateSpecAt (dtU 8) A sup [0, 0] :=
+  C01_dilate_cross_box_disk_everywhere (dtU 8) (Or.inl wf_u8) rfl _ [3, 3] (crossElem 2 1) [0, 0]
+    (by decide) (imageInRange_of_data _ _ (by simp [DT.InRange, dtU]) (by simp [DT.InRange, dtU])) (by decide) (Or.inl ⟨1, rfl, rfl⟩)
+
+example :
+    (support [3, 3] (crossElem 2 1) true).map (·.1) = [[-1, 0], [0, -1], [0, 0], [0, 1], [1, 0]] ∧
+    (diskElem 2 2).toList = [0,0,0,0,0, 0,1,1,1,0, 0,1,1,1,0, 0,1,1,1,0, 0,0,0,0,0] ∧
+    (diskElem 2 0).toList = [0] := by
+  decide +kernel
